@@ -168,4 +168,117 @@ example : let r := run false (.ok ()) [.pass] (.raise boom) (fun _ => true)
     r.status = some 1 ∧ r.reported = true ∧ r.handlerCalls = 1 := by decide
 example : (run false (.ok ()) [.handled v300 false] (.raise boom) (fun _ => true)).handlerCalls = 0 := by decide
 
+/-! ## The renderer hypothesis, in its exact form
+
+`run_contained` / `exception_reported` assume that rendering NEVER fails (`∀ e, render e = true`).
+Only the report of the one exception that reaches the `except` clause matters; the theorems below
+take exactly that (and the first one is an equivalence, so nothing weaker would do).  In the
+correspondence the model is run with `render = fun _ => true` against the REAL renderer on every
+case: a rendering failure of the real code shows up as an escaped exception, i.e. as a
+disagreement (and as an oracle violation). -/
+
+/-- **Nothing escapes `run()` exactly when** the report of the exception that reaches the `except`
+clause (if any, and if it is not a `KeyboardInterrupt`) can be rendered. -/
+theorem run_escapes_iff (debug : Bool) (resolved : Except Exc Unit) (ls : List Listener) (h : Outcome)
+    (render : Exc → Bool) :
+    (run debug resolved ls h render).escaped = none ↔
+      (∀ e, (attempt debug resolved ls h).1 = .error e → e.keyboardInterrupt = false → render e = true) := by
+  simp only [run]
+  cases ha : (attempt debug resolved ls h).1 with
+  | ok s => simp [conclude]
+  | error e =>
+    simp only [conclude]
+    cases hk : e.keyboardInterrupt with
+    | true =>
+      simp only [if_true, true_iff]
+      intro e' he' hk'
+      cases he'
+      rw [hk] at hk'; cases hk'
+    | false =>
+      cases hr : render e with
+      | true =>
+        simp only [Bool.false_eq_true, if_false, if_true, true_iff]
+        intro e' he' _
+        cases he'
+        exact hr
+      | false =>
+        simp only [Bool.false_eq_true, if_false]
+        constructor
+        · intro h0; cases h0
+        · intro hall
+          have := hall e rfl hk
+          rw [hr] at this; cases this
+
+/-- `run_contained` under the exact hypothesis -/
+theorem run_contained_exact (debug : Bool) (resolved : Except Exc Unit) (ls : List Listener) (h : Outcome)
+    (render : Exc → Bool)
+    (hr : ∀ e, (attempt debug resolved ls h).1 = .error e → e.keyboardInterrupt = false → render e = true) :
+    (run debug resolved ls h render).escaped = none ∧
+    ∃ s, (run debug resolved ls h render).status = some s ∧ s ≤ 255 ∧
+      ((run debug resolved ls h render).reported = true → s = 1) := by
+  simp only [run]
+  cases ha : (attempt debug resolved ls h).1 with
+  | ok s => exact ⟨rfl, s, rfl, attempt_status_le _ _ _ _ _ ha, by simp [conclude]⟩
+  | error e =>
+    simp only [conclude]
+    cases hk : e.keyboardInterrupt with
+    | true => exact ⟨rfl, 1, rfl, by omega, by simp⟩
+    | false => simp [hr e ha hk]
+
+/-- `exception_reported` needs the renderer to succeed on that one exception only -/
+theorem exception_reported_exact (debug : Bool) (resolved : Except Exc Unit) (ls : List Listener) (h : Outcome)
+    (render : Exc → Bool) (e : Exc) (he : (attempt debug resolved ls h).1 = .error e)
+    (hr : e.keyboardInterrupt = false → render e = true) :
+    (run debug resolved ls h render).status = some 1 ∧
+    ((run debug resolved ls h render).reported = !e.keyboardInterrupt) := by
+  simp only [run, he, conclude]
+  cases hk : e.keyboardInterrupt with
+  | true => simp
+  | false => simp [hr hk]
+
+/-! ## Non-vacuity of every theorem above that has hypotheses -/
+
+/-- `status_range`: a result of 300 is normalised to 255, `None` to 0 -/
+example : (255 : Nat) ≤ 255 ∧ ((255 : Nat) = 0 ↔ v300.falsy = true) ∧
+    (v300.falsy = false → ∃ n, v300.toInt = .ok n ∧ ((255 : Nat) : Int) = Gen.C04.clampStatus n) :=
+  status_range v300 255 rfl
+example : normalize vNone = .ok 0 := rfl
+
+/-- `attempt_status_le` -/
+example : (255 : Nat) ≤ 255 := attempt_status_le false (.ok ()) [] (.ret v300) 255 rfl
+
+/-- `run_contained` / `run_contained_exact`: a handler raising `boom` behind a passing listener, with
+a renderer that works -/
+example : (run false (.ok ()) [.pass] (.raise boom) (fun _ => true)).escaped = none :=
+  (run_contained false (.ok ()) [.pass] (.raise boom) (fun _ => true) (fun _ => rfl)).1
+
+/-- a renderer that fails on every exception EXCEPT the one raised: the exact hypothesis holds, the
+blanket one does not -/
+def renderOnlyBoom (e : Exc) : Bool := e.tag == 7
+example : (run false (.ok ()) [.pass] (.raise boom) renderOnlyBoom).escaped = none :=
+  (run_contained_exact false (.ok ()) [.pass] (.raise boom) renderOnlyBoom
+    (by intro e he _; have : e = boom := by simpa [attempt, handle, doHandle, dispatchPre, boom] using he.symm
+        subst this; rfl)).1
+example : ¬ ∀ e, renderOnlyBoom e = true := fun h => by have := h ⟨false, false, 0⟩; simp [renderOnlyBoom] at this
+
+/-- `exception_reported` / `exception_reported_exact` -/
+example : (run false (.ok ()) [.pass] (.raise boom) (fun _ => true)).status = some 1 :=
+  (exception_reported false (.ok ()) [.pass] (.raise boom) (fun _ => true) (fun _ => rfl) boom rfl).1
+example : (run false (.ok ()) [.pass] (.raise boom) renderOnlyBoom).reported = true :=
+  (exception_reported_exact false (.ok ()) [.pass] (.raise boom) renderOnlyBoom boom rfl (fun _ => rfl)).2
+
+/-- `status_zero_iff`: the value that reaches the normalisation is the listener's `None` -/
+example : (run false (.ok ()) [.handled vNone false] (.raise boom) (fun _ => true)).status = some 0 ↔ vNone.falsy = true :=
+  status_zero_iff false [.handled vNone false] (.raise boom) (fun _ => true) vNone rfl
+
+/-- `escape_only_by_render`: with a renderer that fails the exception does escape (the hypothesis of
+the theorem is satisfiable) -/
+example : (run false (.ok ()) [] (.raise boom) (fun _ => false)).escaped = some boom := by decide
+example : (fun _ => false : Exc → Bool) boom = false ∧ boom.keyboardInterrupt = false :=
+  escape_only_by_render false (.ok ()) [] (.raise boom) (fun _ => false) boom (by decide)
+
+/-- `handler_once`, right to left: resolution succeeded and the listener passed, so exactly one call -/
+example : (run false (.ok ()) [.pass] (.raise boom) (fun _ => true)).handlerCalls = 1 :=
+  (handler_once false (.ok ()) [.pass] (.raise boom) (fun _ => true)).2.mpr ⟨rfl, rfl⟩
+
 end Clikit.Props.C04
